@@ -34,7 +34,8 @@ def run(R, tier, seed, driver_ok):
         else:
             basis = bk
         max_iter = int(rng.choice([20, 100, 400]))
-        output_iter = int(rng.choice([1, 10, max_iter]))
+        # also values that do not divide max_iter: the last iterations are then after the final checkpoint
+        output_iter = int(rng.choice([1, 10, max_iter, int(rng.randint(2, max_iter + 1)), int(rng.randint(2, max(3, max_iter // 3)))]))
         output_iter = min(output_iter, max_iter)
         params = dict(basis=basis, n_basis=nb, beta=float(rng.choice([1e-5, 1e-3, 0.05])), gamma=float(rng.choice([5e-3, 0.05, 1.0])),
                       batch_size=int(rng.choice([1, 5, 10])), max_iter=max_iter, output_iter=output_iter, random_state=sd)
